@@ -14,7 +14,7 @@ import time
 
 sc = json.loads(sys.argv[1])
 port, tag = int(sys.argv[2]), sys.argv[3]
-os.environ["VERIF_FAULT"] = json.dumps(sc)
+os.environ["VERIF_FAULT"] = json.dumps({**sc, "flag": f"/tmp/{tag}.flag"})
 
 import faulthandler  # noqa: E402
 import signal  # noqa: E402
